@@ -924,3 +924,533 @@ Proof.
     match goal with |- context [if ?b then render_float_exp _ _ _ _ _ _ _ _ else _] => destruct b end;
     first [apply render_float_exp_shape; exact Hf | apply render_float_def_shape; exact Hf].
 Qed.
+
+(* ============================================================ %e digits *)
+
+Local Open Scope Z_scope.
+
+(* 10^j as a fraction pa j / pb j, for any integer j *)
+Definition pa (j : Z) : Z := 10 ^ (Z.max j 0).
+Definition pb (j : Z) : Z := 10 ^ (Z.max (- j) 0).
+
+Lemma pa_pos j : 0 < pa j. Proof. apply pow10_pos; lia. Qed.
+Lemma pb_pos j : 0 < pb j. Proof. apply pow10_pos; lia. Qed.
+
+Lemma pow10_3 x y z : 0 <= x -> 0 <= y -> 0 <= z -> 10 ^ x * 10 ^ y * 10 ^ z = 10 ^ (x + y + z).
+Proof. intros. rewrite !Z.pow_add_r by lia. reflexivity. Qed.
+
+(* 10^(i+j) = 10^i * 10^j, on fractions *)
+Lemma pab_law i j : pa (i + j) * pb i * pb j = pa i * pa j * pb (i + j).
+Proof. unfold pa, pb. rewrite !pow10_3 by lia. f_equal. lia. Qed.
+
+Lemma pa_nonneg j : 0 <= j -> pa j = 10 ^ j /\ pb j = 1.
+Proof. intros. unfold pa, pb. rewrite Z.max_l, Z.max_r by lia. split; reflexivity. Qed.
+
+(* 10^j <= num/den   and   num/den < 10^j *)
+Definition le_p10 (j num den : Z) : Prop := pa j * den <= num * pb j.
+Definition lt_p10 (num den j : Z) : Prop := num * pb j < pa j * den.
+Definition bracket (E num den : Z) : Prop := le_p10 E num den /\ lt_p10 num den (E + 1).
+
+Lemma pow_2_le_10 a : 0 <= a -> 2 ^ a <= 10 ^ a.
+Proof. intros. apply Z.pow_le_mono_l. lia. Qed.
+
+Lemma search_up_spec : forall fuel n pw k,
+  0 <= k -> pw = 10 ^ k -> pw <= n -> n < 10 ^ (k + Z.of_nat fuel) ->
+  let r := search_up fuel n pw k in k <= r /\ 10 ^ r <= n < 10 ^ (r + 1).
+Proof.
+  induction fuel as [|f IH]; intros n pw k Hk Hpw Hle Hlt; cbn [search_up].
+  - cbn in Hlt. rewrite Z.add_0_r in Hlt. lia.
+  - destruct (n <? pw * 10) eqn:E.
+    + apply Z.ltb_lt in E. subst pw. rewrite Z.pow_add_r, Z.pow_1_r by lia. lia.
+    + apply Z.ltb_ge in E.
+      assert (H10 : pw * 10 = 10 ^ (k + 1)) by (subst pw; rewrite Z.pow_add_r, Z.pow_1_r by lia; reflexivity).
+      specialize (IH n (pw * 10) (k + 1) ltac:(lia) H10 E).
+      replace (k + 1 + Z.of_nat f) with (k + Z.of_nat (S f)) in IH by lia.
+      specialize (IH Hlt). cbv zeta in IH. lia.
+Qed.
+
+Lemma search_up_top n : 1 <= n ->
+  let r := search_up (S (Z.to_nat (Z.log2 n))) n 1 0 in 0 <= r /\ 10 ^ r <= n < 10 ^ (r + 1).
+Proof.
+  intros Hn. apply search_up_spec; try lia; try reflexivity.
+  rewrite Z.add_0_l, Nat2Z.inj_succ, Z2Nat.id by apply Z.log2_nonneg.
+  pose proof (Z.log2_spec n ltac:(lia)) as [_ H].
+  pose proof (pow_2_le_10 (Z.succ (Z.log2 n)) ltac:(pose proof (Z.log2_nonneg n); lia)). lia.
+Qed.
+
+Lemma search_dn_spec : forall fuel mm q k,
+  0 <= k -> 0 < mm -> mm < q -> q <= mm * 10 ^ Z.of_nat fuel ->
+  let r := search_dn fuel mm q k in
+  exists j, r = k + j /\ 1 <= j /\ mm * 10 ^ (j - 1) < q <= mm * 10 ^ j.
+Proof.
+  induction fuel as [|f IH]; intros mm q k Hk Hm Hlt Hq; cbn [search_dn].
+  - cbn in Hq. lia.
+  - destruct (q <=? mm * 10) eqn:E.
+    + apply Z.leb_le in E. exists 1. cbn. lia.
+    + apply Z.leb_gt in E.
+      assert (Hq' : q <= mm * 10 * 10 ^ Z.of_nat f).
+      { rewrite Nat2Z.inj_succ, Z.pow_succ_r in Hq by lia. lia. }
+      destruct (IH (mm * 10) q (k + 1) ltac:(lia) ltac:(lia) E Hq') as (j & Hr & Hj & Hb).
+      exists (j + 1). split; [cbv zeta in Hr; lia|]. split; [lia|].
+      replace (j + 1 - 1) with (1 + (j - 1)) by lia. replace (j + 1) with (1 + j) by lia.
+      rewrite !Z.pow_add_r, Z.pow_1_r by lia. lia.
+Qed.
+
+(* the decimal exponent found by the model is THE integer E with 10^E <= m*2^e < 10^(E+1) *)
+Lemma ilog10_bracket m e : 0 < m ->
+  bracket (ilog10 m e) (m * 2 ^ Z.max e 0) (2 ^ Z.max (- e) 0).
+Proof.
+  intros Hm. unfold ilog10, bracket, le_p10, lt_p10.
+  destruct (0 <=? e) eqn:He.
+  - apply Z.leb_le in He. rewrite (Z.max_l e 0), (Z.max_r (- e) 0) by lia.
+    rewrite Z.pow_0_r. cbv zeta.
+    assert (Hn : 1 <= m * 2 ^ e) by (pose proof (pow2_pos e He); nia).
+    destruct (search_up_top _ Hn) as (Hr & Hb). set (r := search_up _ _ _ _) in *.
+    destruct (pa_nonneg r Hr) as (-> & ->). destruct (pa_nonneg (r + 1) ltac:(lia)) as (-> & ->). lia.
+  - apply Z.leb_gt in He. rewrite (Z.max_r e 0), (Z.max_l (- e) 0) by lia.
+    rewrite Z.pow_0_r, Z.mul_1_r. cbv zeta.
+    assert (Hq : 0 < 2 ^ (- e)) by (apply pow2_pos; lia). set (q := 2 ^ (- e)) in *.
+    destruct (q <=? m) eqn:Hqm.
+    + apply Z.leb_le in Hqm.
+      assert (Hn : 1 <= m / q) by (apply Z.div_le_lower_bound; lia).
+      destruct (search_up_top _ Hn) as (Hr & Hb). set (r := search_up _ _ _ _) in *.
+      destruct (pa_nonneg r Hr) as (-> & ->). destruct (pa_nonneg (r + 1) ltac:(lia)) as (-> & ->).
+      pose proof (Z.div_mod m q ltac:(lia)) as Hdm. pose proof (Z.mod_pos_bound m q Hq) as Hmod.
+      split; nia.
+    + apply Z.leb_gt in Hqm.
+      assert (Hfuel : q <= m * 10 ^ Z.of_nat (Z.to_nat (- e))).
+      { rewrite Z2Nat.id by lia. pose proof (pow_2_le_10 (- e) ltac:(lia)).
+        pose proof (pow10_pos (- e) ltac:(lia)). unfold q. nia. }
+      destruct (search_dn_spec _ m q 0 ltac:(lia) Hm Hqm Hfuel) as (j & Hr & Hj & Hb).
+      cbv zeta in Hr. rewrite Hr. replace (0 + j) with j by lia.
+      unfold pa, pb.
+      rewrite (Z.max_r (- j) 0), (Z.max_l (- - j) 0), (Z.max_r (- j + 1) 0), (Z.max_l (- (- j + 1)) 0) by lia.
+      rewrite Z.pow_0_r. replace (- - j) with j by lia. replace (- (- j + 1)) with (j - 1) by lia. lia.
+Qed.
+
+(* ---- uniqueness of the bracket *)
+Lemma pab_mono i j : i <= j -> pa i * pb j <= pa j * pb i.
+Proof.
+  intros H. unfold pa, pb. rewrite <- !Z.pow_add_r by lia.
+  apply Z.pow_le_mono_r; lia.
+Qed.
+
+Lemma bracket_unique E1 E2 num den : 0 < den -> bracket E1 num den -> bracket E2 num den -> E1 = E2.
+Proof.
+  assert (H : forall a b, 0 < den -> le_p10 b num den -> lt_p10 num den (a + 1) -> b < a + 1).
+  { intros a b Hd Hle Hlt. destruct (Z.lt_ge_cases b (a + 1)) as [|Hge]; [assumption|exfalso].
+    unfold le_p10, lt_p10 in *.
+    pose proof (pab_mono (a + 1) b Hge) as Hm.
+    pose proof (pa_pos b). pose proof (pb_pos b). pose proof (pa_pos (a + 1)). pose proof (pb_pos (a + 1)).
+    assert (num * pb (a + 1) * pb b < pa (a + 1) * den * pb b) by nia.
+    assert (pa (a + 1) * pb b * den <= pa b * pb (a + 1) * den) by nia.
+    assert (pa b * den * pb (a + 1) <= num * pb b * pb (a + 1)) by nia.
+    nia. }
+  intros Hd [L1 U1] [L2 U2].
+  pose proof (H E1 E2 Hd L2 U1). pose proof (H E2 E1 Hd L1 U2). lia.
+Qed.
+
+(* ---- number of decimal digits *)
+Local Open Scope N_scope.
+
+Lemma fold_value_acc r l a :
+  fold_left (fun x d => x * r + d) l a = a * r ^ lenN l + digits_value r l.
+Proof.
+  revert a. induction l as [|d t IH]; intros a.
+  - cbn. rewrite N.pow_0_r. lia.
+  - cbn [fold_left]. unfold digits_value. cbn [fold_left]. rewrite IH, (IH (0 * r + d)).
+    rewrite lenN_cons. replace (1 + lenN t) with (N.succ (lenN t)) by lia. rewrite N.pow_succ_r'. lia.
+Qed.
+
+Lemma digits_value_lt r l : Forall (fun d => d < r) l -> digits_value r l < r ^ lenN l.
+Proof.
+  induction l as [|d t IH] using rev_ind; intros H.
+  - cbn. lia.
+  - apply Forall_app in H. destruct H as [Ht Hd]. inversion Hd; subst.
+    rewrite digits_value_snoc, lenN_app. change (lenN [d]) with 1. rewrite N.pow_add_r, N.pow_1_r.
+    specialize (IH Ht). nia.
+Qed.
+
+Lemma digits_value_ge r d t : 0 < d -> r ^ lenN t <= digits_value r (d :: t).
+Proof.
+  intros Hd. unfold digits_value. cbn [fold_left]. rewrite fold_value_acc. nia.
+Qed.
+
+Lemma dec_digits_len n k : 10 ^ k <= n < 10 ^ (k + 1) -> lenN (dec_digits n) = k + 1.
+Proof.
+  intros [Hlo Hhi].
+  assert (Hn : 0 < n) by (pose proof (N.pow_nonzero 10 k ltac:(lia)); lia).
+  unfold dec_digits. replace (n =? 0) with false by (symmetry; apply N.eqb_neq; lia).
+  destruct (radix_digits_value 10 n ltac:(lia)) as (Hv & Hall & Hnz).
+  destruct (Hnz Hn) as (d & t & Hd & Hdpos).
+  unfold lenN. rewrite map_length. fold (lenN (radix_digits 10 n)).
+  pose proof (digits_value_lt 10 _ Hall) as Hup. rewrite Hv in Hup.
+  rewrite Hd in *. pose proof (digits_value_ge 10 d t Hdpos) as Hdn. rewrite Hv in Hdn.
+  rewrite lenN_cons in *.
+  assert (lenN t < k + 1).
+  { apply (N.pow_lt_mono_r_iff 10); lia. }
+  assert (k < 1 + lenN t).
+  { apply (N.pow_lt_mono_r_iff 10); lia. }
+  lia.
+Qed.
+
+Local Open Scope Z_scope.
+
+(* ---- rounding keeps integer bounds *)
+Lemma rhe_bounds num den a b : 0 <= num -> 0 < den ->
+  a * den <= num -> num <= b * den -> a <= rhe num den <= b.
+Proof.
+  intros Hn Hd Ha Hb. destruct (rhe_correct num den Hn Hd) as ((Herr & _) & _).
+  set (D := rhe num den) in *. split.
+  - destruct (Z.lt_ge_cases D a) as [Hlt|]; [exfalso|lia].
+    assert (D * den <= a * den - den) by nia. lia.
+  - destruct (Z.lt_ge_cases b D) as [Hlt|]; [exfalso|lia].
+    assert (b * den + den <= D * den) by nia. lia.
+Qed.
+
+(* ---- the %e digits *)
+
+(* ds (p+1 digits, first one non-zero) and E are the scientific rendering of m*2^e at
+   precision p: the integer ds is (m*2^e) / 10^(E-p) rounded to nearest, ties to even *)
+Definition exp_correct (m e : Z) (p : N) (ds : str) (E : Z) : Prop :=
+  lenN ds = (p + 1)%N /\ all_digits ds /\
+  10 ^ Z.of_N p <= Z.of_N (str_value ds) < 10 ^ (Z.of_N p + 1) /\
+  is_rhe (Z.of_N (str_value ds))
+         (m * 2 ^ Z.max e 0 * pa (Z.of_N p - E)) (2 ^ Z.max (- e) 0 * pb (Z.of_N p - E)).
+
+Lemma scaled_rhe_pab m e k :
+  scaled_rhe m e k = rhe (m * 2 ^ Z.max e 0 * pa k) (2 ^ Z.max (- e) 0 * pb k).
+Proof. reflexivity. Qed.
+
+(* digits of D followed by z zeros: length, digits, value *)
+Lemma digits_then_zeros D q z :
+  10 ^ Z.of_N q <= D < 10 ^ (Z.of_N q + 1) ->
+  let ds := dec_digits (Z.to_N D) ++ repeatN 48 z in
+  lenN ds = (q + z + 1)%N /\ all_digits ds /\ Z.of_N (str_value ds) = D * 10 ^ Z.of_N z.
+Proof.
+  intros [Hlo Hhi]. cbv zeta.
+  assert (HD : 0 <= D) by (pose proof (pow10_pos (Z.of_N q) ltac:(lia)); lia).
+  destruct (str_value_dec_digits (Z.to_N D)) as (Hv & Hall & _).
+  assert (Hlen : lenN (dec_digits (Z.to_N D)) = (q + 1)%N).
+  { apply dec_digits_len. split.
+    - apply N2Z.inj_le. rewrite N2Z.inj_pow, Z2N.id by lia. exact Hlo.
+    - apply N2Z.inj_lt. rewrite N2Z.inj_pow, Z2N.id, N2Z.inj_add by lia. exact Hhi. }
+  repeat split.
+  - rewrite lenN_app, lenN_repeatN, Hlen. lia.
+  - apply all_digits_app; [exact Hall|apply all_digits_zeros].
+  - rewrite str_value_trail_zeros, Hv, N2Z.inj_mul, N2Z.inj_pow, Z2N.id by lia. reflexivity.
+Qed.
+
+Lemma carry_arith_a D num den : 0 < den -> 2 * Z.abs (10 * (D * den - num)) <= den -> is_rhe D num den.
+Proof. unfold is_rhe. intros. split; [lia|intros; exfalso; lia]. Qed.
+
+Lemma carry_arith_b y W (ev : Prop) : 0 < W -> 2 * Z.abs y <= W ->
+  2 * Z.abs y <= 10 * W /\ (2 * Z.abs y = 10 * W -> ev).
+Proof. intros. split; [lia|intros; exfalso; lia]. Qed.
+
+Lemma exp_parts_correct m e p : 0 < m ->
+  let '(ds, E) := exp_parts m e p in exp_correct m e p ds E.
+Proof.
+  intros Hm. unfold exp_parts, ch_0. cbv zeta.
+  pose proof (ilog10_bracket m e Hm) as [HB1 HB2]. unfold le_p10, lt_p10 in HB1, HB2.
+  set (E0 := ilog10 m e) in *.
+  set (num0 := m * 2 ^ Z.max e 0) in *. set (den0 := 2 ^ Z.max (- e) 0) in *.
+  assert (Hnum0 : 0 < num0) by (unfold num0; pose proof (pow2_pos (Z.max e 0) ltac:(lia)); nia).
+  assert (Hden0 : 0 < den0) by (unfold den0; apply pow2_pos; lia).
+  set (cap := Z.to_N (Z.max (E0 + Z.max (- e) 0) 0)).
+  set (p' := N.min p cap).
+  set (k := Z.of_N p' - E0).
+  rewrite scaled_rhe_pab. fold num0 den0.
+  set (Nn := num0 * pa k). set (Dn := den0 * pb k).
+  pose proof (pa_pos k) as Hpak. pose proof (pb_pos k) as Hpbk.
+  assert (HNn : 0 <= Nn) by (unfold Nn; nia).
+  assert (HDn : 0 < Dn) by (unfold Dn; nia).
+  (* the scaled value lies in [10^p', 10^(p'+1)) *)
+  assert (F1 : 10 ^ Z.of_N p' * Dn <= Nn).
+  { pose proof (pab_law E0 k) as L. replace (E0 + k) with (Z.of_N p') in L by (unfold k; lia).
+    destruct (pa_nonneg (Z.of_N p') ltac:(lia)) as (Ha & Hb). rewrite Ha, Hb in L.
+    pose proof (pa_pos E0). pose proof (pb_pos E0). unfold Nn, Dn.
+    assert (10 ^ Z.of_N p' * (den0 * pb k) * pb E0 <= num0 * pa k * pb E0) by nia.
+    nia. }
+  assert (F2 : Nn < 10 ^ (Z.of_N p' + 1) * Dn).
+  { pose proof (pab_law (E0 + 1) k) as L. replace (E0 + 1 + k) with (Z.of_N p' + 1) in L by (unfold k; lia).
+    destruct (pa_nonneg (Z.of_N p' + 1) ltac:(lia)) as (Ha & Hb). rewrite Ha, Hb in L.
+    pose proof (pa_pos (E0 + 1)). pose proof (pb_pos (E0 + 1)). unfold Nn, Dn.
+    assert (num0 * pa k * pb (E0 + 1) < 10 ^ (Z.of_N p' + 1) * (den0 * pb k) * pb (E0 + 1)) by nia.
+    nia. }
+  destruct (rhe_correct Nn Dn HNn HDn) as (Hrhe & _).
+  pose proof (rhe_bounds Nn Dn (10 ^ Z.of_N p') (10 ^ (Z.of_N p' + 1)) HNn HDn F1 ltac:(lia)) as HD0.
+  set (D0 := rhe Nn Dn) in *.
+  pose proof (pow10_pos (Z.of_N p') ltac:(lia)) as Hp10.
+  assert (Hsucc : 10 ^ (Z.of_N p' + 1) = 10 * 10 ^ Z.of_N p') by (rewrite Z.pow_add_r, Z.pow_1_r by lia; lia).
+  destruct (N.le_gt_cases p cap) as [Hle|Hgt].
+  - (* precision within the exact range: p' = p *)
+    assert (Hp' : p' = p) by (unfold p'; lia). rewrite Hp' in *. rewrite N.sub_diag.
+    destruct (10 ^ (Z.of_N p + 1) <=? D0) eqn:Ecarry.
+    + (* carry: D0 = 10^(p+1), rendered as 1 0...0 with exponent E0+1 *)
+      apply Z.leb_le in Ecarry. assert (HD0eq : D0 = 10 ^ (Z.of_N p + 1)) by lia.
+      destruct (digits_then_zeros (10 ^ Z.of_N p) p 0 ltac:(lia)) as (L1 & L2 & L3).
+      rewrite Z.mul_1_r in L3. unfold exp_correct. rewrite L3.
+      destruct Hrhe as (Herr & _). rewrite HD0eq, Hsucc in Herr. unfold Nn, Dn in Herr.
+      assert (Hcarry : is_rhe (10 ^ Z.of_N p) (num0 * pa (Z.of_N p - (E0 + 1))) (den0 * pb (Z.of_N p - (E0 + 1)))).
+      { replace (Z.of_N p - (E0 + 1)) with (k - 1) by (unfold k; lia).
+        clear - Herr Hden0 Hp10. set (P := 10 ^ Z.of_N p) in *.
+        destruct (Z.le_gt_cases 1 k) as [Hk|Hk].
+        - destruct (pa_nonneg k ltac:(lia)) as (Ha & Hb). destruct (pa_nonneg (k - 1) ltac:(lia)) as (Ha' & Hb').
+          rewrite Ha, Hb in Herr. rewrite Ha', Hb'.
+          assert (H10 : 10 ^ k = 10 * 10 ^ (k - 1)).
+          { replace k with (1 + (k - 1)) at 1 by lia. rewrite Z.pow_add_r, Z.pow_1_r by lia. reflexivity. }
+          rewrite H10 in Herr. set (A := 10 ^ (k - 1)) in *.
+          replace (10 * P * (den0 * 1) - num0 * (10 * A)) with (10 * (P * (den0 * 1) - num0 * A)) in Herr by ring.
+          apply carry_arith_a; [lia|exact Herr].
+        - unfold pa, pb in *. rewrite (Z.max_r k 0) in Herr by lia. rewrite (Z.max_r (k - 1) 0) by lia.
+          rewrite Z.pow_0_r in *. rewrite (Z.max_l (- k) 0) in Herr by lia. rewrite (Z.max_l (- (k - 1)) 0) by lia.
+          assert (H10 : 10 ^ (- (k - 1)) = 10 * 10 ^ (- k)).
+          { replace (- (k - 1)) with (1 + (- k)) by lia. rewrite Z.pow_add_r, Z.pow_1_r by lia. reflexivity. }
+          rewrite H10. pose proof (pow10_pos (- k) ltac:(lia)) as HB. set (B := 10 ^ (- k)) in *. unfold is_rhe.
+          replace (P * (den0 * (10 * B)) - num0 * 1) with (10 * P * (den0 * B) - num0 * 1) by ring.
+          replace (den0 * (10 * B)) with (10 * (den0 * B)) by ring.
+          apply carry_arith_b; [nia|exact Herr]. }
+      repeat split; try assumption; try lia; apply Hcarry.
+    + apply Z.leb_gt in Ecarry.
+      destruct (digits_then_zeros D0 p 0 ltac:(lia)) as (L1 & L2 & L3).
+      rewrite Z.mul_1_r in L3. unfold exp_correct. rewrite L3.
+      replace (Z.of_N p - E0) with k by (unfold k; lia).
+      repeat split; try assumption; try lia; apply Hrhe.
+  - (* beyond the exact range: computed at cap, zeros appended *)
+    assert (Hp' : p' = cap) by (unfold p'; lia).
+    assert (Hk : Z.max (- e) 0 <= k) by (unfold k; rewrite Hp'; unfold cap; lia).
+    destruct (pa_nonneg k ltac:(lia)) as (Ha & Hb).
+    set (d := Z.max (- e) 0) in *.
+    assert (Hexact : Nn = (num0 * 10 ^ (k - d) * 5 ^ d) * Dn).
+    { unfold Nn, Dn. rewrite Ha, Hb, Z.mul_1_r. unfold den0. fold d.
+      replace k with (d + (k - d)) at 1 by lia. rewrite Z.pow_add_r by lia.
+      change 10 with (5 * 2) at 1. rewrite Z.pow_mul_l. ring. }
+    assert (HD0v : D0 = num0 * 10 ^ (k - d) * 5 ^ d) by (unfold D0; rewrite Hexact; apply rhe_exact; exact HDn).
+    assert (HD0N : D0 * Dn = Nn) by (rewrite Hexact, <- HD0v; reflexivity).
+    assert (Hnocarry : D0 < 10 ^ (Z.of_N p' + 1)).
+    { apply (Z.mul_lt_mono_pos_r Dn); [exact HDn|]. rewrite HD0N. exact F2. }
+    replace (10 ^ (Z.of_N p' + 1) <=? D0) with false by (symmetry; apply Z.leb_gt; exact Hnocarry).
+    destruct (digits_then_zeros D0 p' (p - p') ltac:(lia)) as (L1 & L2 & L3).
+    unfold exp_correct. rewrite L3.
+    assert (Hpp : Z.of_N p = Z.of_N p' + Z.of_N (p - p')) by lia.
+    pose proof (pow10_pos (Z.of_N (p - p')) ltac:(lia)) as Hz.
+    change (2 ^ Z.max (- e) 0) with den0. change (m * 2 ^ Z.max e 0) with num0.
+    repeat split; try assumption.
+    + rewrite L1. lia.
+    + rewrite Hpp, Z.pow_add_r by lia. apply Z.mul_le_mono_nonneg_r; lia.
+    + replace (Z.of_N p + 1) with ((Z.of_N p' + 1) + Z.of_N (p - p')) by lia. rewrite Z.pow_add_r by lia. apply Z.mul_lt_mono_pos_r; [exact Hz|exact Hnocarry].
+    + replace (Z.of_N p - E0) with (k + Z.of_N (p - p')) by (unfold k; lia).
+      destruct (pa_nonneg (k + Z.of_N (p - p')) ltac:(lia)) as (Ha2 & Hb2). rewrite Ha2, Hb2.
+      rewrite Z.pow_add_r by lia. unfold Nn, Dn in HD0N. rewrite Ha, Hb in HD0N.
+      replace (D0 * 10 ^ Z.of_N (p - p') * (den0 * 1) - num0 * (10 ^ k * 10 ^ Z.of_N (p - p')))
+        with ((D0 * (den0 * 1) - num0 * 10 ^ k) * 10 ^ Z.of_N (p - p')) by ring.
+      rewrite HD0N, Z.sub_diag, Z.mul_0_l.
+      cbn. lia.
+    + replace (Z.of_N p - E0) with (k + Z.of_N (p - p')) by (unfold k; lia).
+      destruct (pa_nonneg (k + Z.of_N (p - p')) ltac:(lia)) as (Ha2 & Hb2). rewrite Ha2, Hb2.
+      rewrite Z.pow_add_r by lia. unfold Nn, Dn in HD0N. rewrite Ha, Hb in HD0N.
+      replace (D0 * 10 ^ Z.of_N (p - p') * (den0 * 1) - num0 * (10 ^ k * 10 ^ Z.of_N (p - p')))
+        with ((D0 * (den0 * 1) - num0 * 10 ^ k) * 10 ^ Z.of_N (p - p')) by ring.
+      rewrite HD0N, Z.sub_diag, Z.mul_0_l.
+      cbn. lia.
+Qed.
+
+(* ---- the capped-precision path of render_float_exp (/repo a32ed0a + 913b069) *)
+Local Open Scope N_scope.
+
+(* the (digits, exponent) render_float_exp works with: the formatter at a capped
+   precision, then zeros appended to the mantissa digits *)
+Definition capped_exp (x : f64) (prec : N) : res (str * Z) :=
+  let fmt_prec := N.min prec (fmt_prec_max - 1) in
+  do de <- fmt_exp x fmt_prec; Ok (fst de ++ repeatN 48 (prec - fmt_prec), snd de).
+
+Lemma exp_parts_cap m e p c :
+  (Z.max (ilog10 m e + Z.max (- e) 0) 0 <= Z.of_N c)%Z -> c <= p ->
+  exp_parts m e p = (fst (exp_parts m e c) ++ repeatN 48 (p - c), snd (exp_parts m e c)).
+Proof.
+  intros Hc Hcp. unfold exp_parts, ch_0. cbv zeta.
+  set (q := Z.to_N (Z.max (ilog10 m e + Z.max (- e) 0) 0)).
+  assert (Hq : q <= c) by (unfold q; lia).
+  replace (N.min p q) with q by lia. replace (N.min c q) with q by lia.
+  destruct (10 ^ (Z.of_N q + 1) <=? scaled_rhe m e (Z.of_N q - ilog10 m e))%Z; cbn [fst snd];
+    rewrite <- app_assoc, <- repeatN_add; do 3 f_equal; lia.
+Qed.
+
+(* the decimal exponent of a number below 2^(53+max e 0) *)
+Lemma ilog10_upper m e : (0 < m < 2 ^ 53)%Z -> (ilog10 m e < 53 + Z.max e 0)%Z.
+Proof.
+  intros [Hm Hm53]. destruct (ilog10_bracket m e Hm) as [HB _]. unfold le_p10 in HB.
+  set (E := ilog10 m e) in *.
+  destruct (Z.lt_ge_cases E (53 + Z.max e 0)) as [|Hge]; [assumption|exfalso].
+  destruct (pa_nonneg E ltac:(lia)) as (Ha & Hb). rewrite Ha, Hb, Z.mul_1_r in HB.
+  assert (H1 : (10 ^ (53 + Z.max e 0) <= 10 ^ E)%Z) by (apply Z.pow_le_mono_r; lia).
+  assert (H2 : (2 ^ (53 + Z.max e 0) <= 10 ^ (53 + Z.max e 0))%Z) by (apply pow_2_le_10; lia).
+  rewrite Z.pow_add_r in H2 by lia.
+  pose proof (pow2_pos (Z.max e 0) ltac:(lia)). pose proof (pow2_pos (Z.max (- e) 0) ltac:(lia)).
+  assert (m * 2 ^ Z.max e 0 < 2 ^ 53 * 2 ^ Z.max e 0)%Z by (apply Z.mul_lt_mono_pos_r; lia).
+  assert (10 ^ E <= 10 ^ E * 2 ^ Z.max (- e) 0)%Z by nia.
+  lia.
+Qed.
+
+Lemma capped_exp_finite s m e prec :
+  (Z.pos m < 2 ^ 53)%Z -> (- 65000 <= e <= 65000)%Z ->
+  capped_exp (S754_finite s m e) prec = Ok (exp_parts (Z.pos m) e prec).
+Proof.
+  intros Hm He. unfold capped_exp, fmt_exp. cbv zeta.
+  pose proof (ilog10_upper (Z.pos m) e ltac:(lia)) as HE.
+  replace (fmt_prec_max <=? N.min prec (fmt_prec_max - 1)) with false
+    by (symmetry; apply N.leb_gt; unfold fmt_prec_max; lia).
+  cbn [obind].
+  destruct (N.le_gt_cases prec (fmt_prec_max - 1)) as [Hle|Hgt].
+  - replace (N.min prec (fmt_prec_max - 1)) with prec by lia.
+    rewrite N.sub_diag, repeatN_0, app_nil_r. destruct (exp_parts (Z.pos m) e prec); reflexivity.
+  - replace (N.min prec (fmt_prec_max - 1)) with (fmt_prec_max - 1) by lia.
+    rewrite (exp_parts_cap (Z.pos m) e prec (fmt_prec_max - 1)); [reflexivity| |lia].
+    unfold fmt_prec_max. change (Z.of_N (65535 - 1)) with 65534%Z. lia.
+Qed.
+
+Lemma render_float_exp_digits value prec zp plus blank ensure_pt trim uppercase :
+  render_float_exp value prec zp plus blank ensure_pt trim uppercase =
+  do de <- capped_exp (f_abs value) prec;
+  let ds := fst de in
+  let mant := match ds with d0 :: rest => if prec =? 0 then [d0] else d0 :: 46 :: rest | [] => [] end in
+  let mant := if negb (prec =? 0) && trim
+              then (if ensure_pt then trim_end_zeros mant else strip_dot_suffix (trim_end_zeros mant))
+              else mant in
+  Ok (decorate_digits
+        (mant ++ (if (prec =? 0) && ensure_pt then [46] else []) ++
+         (if uppercase then 69 else 101) :: exp_suffix (snd de))
+        (is_neg value) zp 0 plus blank).
+Proof.
+  unfold render_float_exp, capped_exp. cbv zeta.
+  destruct (fmt_exp (f_abs value) (N.min prec (fmt_prec_max - 1))) as [[ds E]| | |]; reflexivity.
+Qed.
+
+(* %e digits: for every binary64 value m*2^e > 0 and EVERY precision, the p+1 digits and
+   the exponent E handed to the decoration are the correctly rounded (half-even)
+   scientific rendering: 10^p <= ds < 10^(p+1) and ds = m*2^e / 10^(E-p) rounded *)
+Lemma exp_digits_correct s m e prec :
+  (Z.pos m < 2 ^ 53)%Z -> (- 65000 <= e <= 65000)%Z ->
+  exists ds E, capped_exp (S754_finite s m e) prec = Ok (ds, E) /\ exp_correct (Z.pos m) e prec ds E.
+Proof.
+  intros Hm He. rewrite (capped_exp_finite s m e prec Hm He).
+  pose proof (exp_parts_correct (Z.pos m) e prec ltac:(lia)) as H.
+  destruct (exp_parts (Z.pos m) e prec) as [ds E]. exists ds, E. split; [reflexivity|exact H].
+Qed.
+
+(* and the exponent: before rounding, E0 = ilog10 is the unique integer with
+   10^E0 <= m*2^e < 10^(E0+1); the rendered E is E0, or E0+1 exactly when the digits
+   round up to 10^(p+1) (then ds = 10^p) *)
+Lemma exp_exponent_after_carry m e p : (0 < m)%Z ->
+  let '(ds, E) := exp_parts m e p in
+  let E0 := ilog10 m e in
+  bracket E0 (m * 2 ^ Z.max e 0) (2 ^ Z.max (- e) 0) /\
+  (E = E0 \/ (E = E0 + 1 /\ Z.of_N (str_value ds) = 10 ^ Z.of_N p))%Z.
+Proof.
+  intros Hm. pose proof (ilog10_bracket m e Hm) as HB.
+  unfold exp_parts, ch_0. cbv zeta.
+  set (E0 := ilog10 m e) in *. set (cap := Z.to_N (Z.max (E0 + Z.max (- e) 0) 0)).
+  set (p' := N.min p cap).
+  destruct (10 ^ (Z.of_N p' + 1) <=? scaled_rhe m e (Z.of_N p' - E0))%Z eqn:Ec.
+  - split; [exact HB|]. right. split; [reflexivity|].
+    destruct (digits_then_zeros (10 ^ Z.of_N p') p' (p - p')) as (_ & _ & L3).
+    { pose proof (pow10_pos (Z.of_N p') ltac:(lia)). rewrite Z.pow_add_r, Z.pow_1_r by lia. lia. }
+    rewrite L3, <- Z.pow_add_r by lia. f_equal. unfold p'. lia.
+  - split; [exact HB|]. left. reflexivity.
+Qed.
+
+(* ============================================================ %g, precisely *)
+
+(* which rendering %g / %G selects, as coded: P = the precision (6 when absent),
+   X = 0 for zero, else floor(libm log10 |x|); the %e renderer with precision
+   max(P,1)-1 when X < -4 or 0 <= X /\ P <= X, else the %f renderer with precision
+   P -. (1 if |x| < 1 else the number of digits of trunc|x|); trailing zeros (and a
+   bare point) are dropped unless # is given, and # forces the point *)
+Lemma g_selects lf c fwv precv x :
+  (ctype c = CGLower \/ ctype c = CGUpper) ->
+  let fl := flags c in
+  let P := match prec c with Some _ => precv | None => 6 end in
+  let X := if f_is_zero x then 0%Z else lf (f_abs x) in
+  let zp := if fl_zero fl && negb (fl_left fl) then fwv else 0 in
+  do_format_code lf c fwv precv (VNum x) =
+  if (X <? -4)%Z || ((0 <=? X)%Z && (Z.of_N P <=? X)%Z) then
+    render_float_exp x (N.max P 1 - 1) zp (fl_plus fl) (fl_blank fl) (fl_alt fl) (negb (fl_alt fl))
+                     (conv_eqb (ctype c) CGUpper)
+  else
+    render_float_def x
+      (P - (if f_ltb (f_abs x) f_one then 1
+            else match trunc_mag x with
+                 | Some mag => lenN (display_int mag)
+                 | None => lenN (display_abs (f_abs x)) end))
+      zp (fl_plus fl) (fl_blank fl) (fl_alt fl) (negb (fl_alt fl)).
+Proof.
+  intros Hc. cbv zeta. unfold do_format_code. cbv zeta.
+  destruct Hc as [Hc|Hc]; rewrite Hc; cbn [need_num obind]; destruct (prec c); reflexivity.
+Qed.
+
+(* trimming only removes trailing zeros *)
+Lemma trim_end_zeros_spec s : exists k, s = trim_end_zeros s ++ repeatN 48 k.
+Proof.
+  induction s as [|c r IH]; [exists 0%N; reflexivity|].
+  destruct IH as (k & Hk). cbn [trim_end_zeros].
+  destruct (trim_end_zeros r) as [|t0 t] eqn:Et.
+  - cbn [app] in Hk. destruct (c =? 48)%N eqn:Ec.
+    + apply N.eqb_eq in Ec. subst c. exists (N.succ k). rewrite repeatN_succ, <- Hk. reflexivity.
+    + exists k. cbn [app]. rewrite <- Hk. reflexivity.
+  - exists k. cbn [app]. rewrite Hk at 1. reflexivity.
+Qed.
+
+Lemma trim_point ip fp : trim_end_zeros (ip ++ 46%N :: fp) = ip ++ 46%N :: trim_end_zeros fp.
+Proof.
+  induction ip as [|a ip IH]; cbn [app trim_end_zeros].
+  - destruct (trim_end_zeros fp); reflexivity.
+  - rewrite IH. destruct ip; reflexivity.
+Qed.
+
+Lemma strip_dot_cons a r : r <> [] -> strip_dot_suffix (a :: r) = a :: strip_dot_suffix r.
+Proof. destruct r; [contradiction|reflexivity]. Qed.
+
+Lemma strip_dot_point ip : strip_dot_suffix (ip ++ [46%N]) = ip.
+Proof.
+  induction ip as [|a ip IH]; [reflexivity|].
+  cbn [app]. rewrite strip_dot_cons by (destruct ip; discriminate). rewrite IH. reflexivity.
+Qed.
+
+Lemma strip_dot_keep s c : c <> 46%N -> strip_dot_suffix (s ++ [c]) = s ++ [c].
+Proof.
+  intros Hc. induction s as [|a s IH]; cbn [app].
+  - cbn. destruct (c =? 46)%N eqn:E; [apply N.eqb_eq in E; contradiction|reflexivity].
+  - rewrite strip_dot_cons by (destruct s; discriminate). rewrite IH. reflexivity.
+Qed.
+
+(* what %g (without #) shows of a fixed rendering ip.fp: the fraction without its trailing
+   zeros, no point when nothing is left — the number denoted is unchanged *)
+Lemma g_trim_keeps_value ip fp : all_digits fp ->
+  exists fp' k,
+    fp = fp' ++ repeatN 48 k /\
+    strip_dot_suffix (trim_end_zeros (ip ++ 46%N :: fp)) =
+      (match fp' with [] => ip | _ => ip ++ 46%N :: fp' end) /\
+    str_value (ip ++ fp) = (str_value (ip ++ fp') * 10 ^ k)%N.
+Proof.
+  intros Hall. destruct (trim_end_zeros_spec fp) as (k & Hk).
+  exists (trim_end_zeros fp), k. split; [exact Hk|]. split.
+  - rewrite trim_point.
+    destruct (trim_end_zeros fp) as [|t0 t] eqn:Et.
+    + apply strip_dot_point.
+    + destruct (@exists_last _ (t0 :: t) ltac:(discriminate)) as (f & c & Hf). rewrite Hf.
+      replace (ip ++ 46%N :: f ++ [c]) with ((ip ++ 46%N :: f) ++ [c]) by (rewrite <- app_assoc; reflexivity).
+      apply strip_dot_keep.
+      rewrite Hk, Hf in Hall. apply Forall_app in Hall. destruct Hall as [Hall _].
+      apply Forall_app in Hall. destruct Hall as [_ Hc]. inversion Hc; subst. lia.
+  - rewrite Hk at 1. rewrite app_assoc. apply str_value_trail_zeros.
+Qed.
+
+(* where the code deviates from C's %g (the implementation answers the same; Python gives
+   "5", "1e+03", "0.000123456"): precision 0 is not treated as 1; the exponent is that of
+   the unrounded value; below 1 the fraction keeps P-1 digits, not P significant ones *)
+Lemma g_deviations :
+  format_run [37; 46; 48; 103]%N (ASingle (VNum (f_of_Z 5))) = Ok [53; 101; 43; 48; 48]%N /\
+  format_run [37; 46; 51; 103]%N (ASingle (VNum (f_of_bits 0x408f3f3333333333))) = Ok [49; 48; 48; 48]%N /\
+  format_run [37; 103]%N (ASingle (VNum (f_of_bits 0x3f202e7ef70994dd))) = Ok [48; 46; 48; 48; 48; 49; 50]%N.
+Proof. vm_compute. repeat split. Qed.
